@@ -608,7 +608,11 @@ func (r *Runner) step(st Obj) error {
 		if as == nil {
 			return fmt.Errorf("unknown actor %q", a)
 		}
-		r.srv.InjectFault(as.name, Fault{Code: AsInt(st["code"]), Skip: AsInt(st["skip"]), Verb: AsStr(st["verb"])})
+		f := Fault{Code: AsInt(st["code"]), Skip: AsInt(st["skip"]), Verb: AsStr(st["verb"]), Name: AsStr(st["name"])}
+		if rs := AsStr(st["res"]); rs != "" {
+			f.ResKey = ResKeyOf(rs)
+		}
+		r.srv.InjectFault(as.name, f)
 		return nil
 	case "hookfault":
 		r.hookMu.Lock()
